@@ -396,6 +396,14 @@ func genC19(r *rng, n int, emit func(string)) {
 		}
 		probe()
 	}
+	// skew and period (counter and skew) that only look acceptable after they have been multiplied or added
+	for _, ab := range wrapPairs() {
+		for _, sp := range [][2]uint64{{ab[0], ab[1]}, {ab[1], ab[0]}} {
+			emit(rreq("k", "POST", "/totp/validate", "", obj(fS("secret", "GEZDGNBVGY3TQOJQGEZDGNBVGY3TQOJQ"), fS("code", "00000a"), fI("timestamp", 59), fmt.Sprintf("skew~i~%d", sp[0]), fmt.Sprintf("period~i~%d", sp[1]))))
+			emit(rreq("k", "POST", "/hotp/validate", "", obj(fS("secret", "GEZDGNBVGY3TQOJQGEZDGNBVGY3TQOJQ"), fS("code", "00000a"), fmt.Sprintf("skew~i~%d", sp[0]), fmt.Sprintf("counter~i~%d", sp[1]))))
+		}
+		probe()
+	}
 	// extreme numbers where they matter: skew, period, counter, timestamp
 	for _, sk := range []string{"11", "255", "4294967296", "9223372036854775807", "18446744073709551615"} {
 		emit(rreq("k", "POST", "/totp/validate", "", obj(fS("secret", "GEZDGNBVGY3TQOJQGEZDGNBVGY3TQOJQ"), fS("code", "000000"), fI("timestamp", 59), "skew~i~"+sk)))
